@@ -84,7 +84,7 @@ func (c *caseCtx) key() string {
 }
 
 func newCase(t tb, sp *spec, history []*spec, seed types.Seed, round uint64, salt uint64) *caseCtx {
-	c := &caseCtx{t: t, sp: sp, m: newModel(sp), seed: seed, round: round, comm: map[uint8]*committee{}, keyOf: map[common.Address]int{}, others: map[string]*validators.ValidatorsCache{}}
+	c := &caseCtx{t: t, sp: sp, m: newModel(sp), keyOf: map[common.Address]int{}, others: map[string]*validators.ValidatorsCache{}}
 	c.chain, c.cfg = chainForConfig()
 	c.ids, c.vcLoad = loadedCache(sp)
 	if history != nil {
@@ -98,6 +98,14 @@ func newCase(t tb, sp *spec, history []*spec, seed types.Seed, round uint64, sal
 	for _, o := range sp.Outsiders {
 		c.keyOf[rk(o).addr] = o
 	}
+	c.setTarget(seed, round, salt)
+	return c
+}
+
+// setTarget chooses the parent (seed, height round-1) and the two candidate
+// blocks of the round the certificates are about.
+func (c *caseCtx) setTarget(seed types.Seed, round uint64, salt uint64) {
+	c.seed, c.round, c.comm = seed, round, map[uint8]*committee{}
 	var ph common.Hash
 	ph.SetBytes(crypto.Keccak256([]byte(fmt.Sprintf("parent-%d", salt))))
 	c.prev = &types.Header{EmptyBlockHeader: &types.EmptyBlockHeader{ParentHash: ph, Height: round - 1, BlockSeed: seed, Time: 1900000000}}
@@ -106,7 +114,6 @@ func newCase(t tb, sp *spec, history []*spec, seed types.Seed, round uint64, sal
 	}
 	c.blockA = &types.Header{ProposedHeader: &types.ProposedHeader{ParentHash: c.prev.Hash(), Height: round, Time: 1900000020, ProposerPubKey: []byte{4, byte(salt)}, FeePerGas: big.NewInt(10)}}
 	c.blockB = &types.Header{EmptyBlockHeader: &types.EmptyBlockHeader{ParentHash: c.prev.Hash(), Height: round, Time: 1900000020}}
-	return c
 }
 
 func sameSet(a []common.Address, b []common.Address) bool {
